@@ -361,6 +361,11 @@ def directed_cases(ck):
         strip_args(d)
         for dialect in ("sql.generic", "sql.sqlite", "sql.mssql"):
             add("fixed:N16", "json_rq", json.dumps(d), target=dialect)
+    # C12-N19 (open): a qualified table and a table named like its first segment
+    for src in ("from s.t | join s (==k)", "from a.b.r | join side:left a (==q)"):
+        add("N19:namesake", "compile", src, target="sql.generic")
+    # C12-N20 (open): the main relation is an ExternRef
+    add("N20:extern-main", "json_rq", json.dumps({"def": {"other": {}, "version": None}, "relation": {"columns": ["Wildcard"], "kind": {"ExternRef": {"LocalTable": ["t"]}}}, "tables": []}), target="sql.generic")
     # C12-N6 (79f4a51): ids of usize::MAX
     b5 = harness("rq", [{"src": "from t | take 5"}])[0]
     if "ok" in b5:
